@@ -360,6 +360,7 @@ func TestKnownFindingProbes(t *testing.T) {
 		case o.Violation != "" && isOpen:
 			rec.KnownFinding(kf.ID, kf.What)
 			rec.Discarded("probe:reproduced open finding " + kf.ID)
+			rec.SaveReplay(p.kind, p.c, "probe of open finding "+kf.ID+": "+trunc(o.Violation, 1500)) // replayable witness of the finding
 		case o.Violation != "":
 			path := rec.Violate(p.kind, p.c, o.Violation)
 			t.Errorf("VIOLATION %s kind=%s replay=%s: %s", ID, p.kind, path, trunc(o.Violation, 1200))
